@@ -671,6 +671,20 @@ class SqueethNV:
                     m.withdraw_uni_position(key, pos)
                 else:
                     m.deposit_uni_position(key, pos)
+            elif op == "deposit_unknown_vault":
+                from demeter.squeeth import VaultKey
+
+                m.open_deposit_mint(ctx.dec("deposit" + suffix, 0, 500), ctx.dec("mint" + suffix, 0, 5000), vault_key=VaultKey(99))
+            elif op == "burn_unknown_vault":
+                from demeter.squeeth import VaultKey
+
+                m.burn_and_withdraw(VaultKey(99), ctx.dec("burn" + suffix, 0, 20000), ctx.dec("withdraw" + suffix, 0, 2000))
+            elif op == "withdraw_lp_not_in_vault":
+                from demeter.uniswap import PositionInfo
+
+                m.withdraw_uni_position(key, PositionInfo(20400, 23100))
+            elif op == "mint_with_second_lp":
+                m.open_deposit_mint(ctx.dec("deposit" + suffix, 0, 500), ctx.dec("mint" + suffix, 0, 5000), vault_key=key, uni_position=self.free)
             elif op in ("buy_squeeth", "sell_squeeth"):
                 a = ctx.dec("osqth_amount" + suffix, 0, 20000)
                 fee, x, y = (m.buy_squeeth if op == "buy_squeeth" else m.sell_squeeth)(a)
@@ -880,6 +894,20 @@ class UniNV:
                 kind = "lossy"
             elif op == "remove_all":
                 m.remove_all_liquidity()
+            elif op == "add_misaligned_ticks":
+                lo_a, hi_a = _range(dict(tick=p["tick"], range="inside"))
+                lo, hi = s.ticks(lo_a, hi_a)
+                m.add_liquidity_by_tick(lo + 3, hi, _wei_amount(ctx, "add_base_wei" + suffix, self.B.decimal, -3, 7), _wei_amount(ctx, "add_quote_wei" + suffix, self.Q.decimal, -3, 10))
+            elif op == "add_inverted_range":
+                lo_a, hi_a = _range(dict(tick=p["tick"], range="inside"))
+                lo, hi = s.ticks(lo_a, hi_a)
+                m.add_liquidity_by_tick(hi, lo, _wei_amount(ctx, "add_base_wei" + suffix, self.B.decimal, -3, 7), _wei_amount(ctx, "add_quote_wei" + suffix, self.Q.decimal, -3, 10))
+            elif op == "swap_same_token":
+                m.swap(ctx.dec("amount" + suffix, 0, 10**9), s.B, s.B)
+            elif op == "swap_foreign_token":
+                from demeter import TokenInfo
+
+                m.swap(ctx.dec("amount" + suffix, 0, 10**9), s.B, TokenInfo("DAI", 18))
             else:
                 raise ValueError(op)
         except Exception as e:
